@@ -23,6 +23,10 @@ R09.8 the reported index is the index of the byte that hit: on every path of a s
       assembly: linear forms of the position register, C loop: SSA values with phis resolved along the path) the
       value stored through idx equals the index of the last byte that indexed t1 when the path leaves through the
       "equal" edge of the trigger compare, and that index + 1 when it leaves because the bound was reached.
+R09.9 the mask generator on the IR skeleton (lib/irskel.py, constant propagation through _rolling_hashx_mask_gen and its
+      static helpers): for every bit position k = 1..31, the means 2^k - 1, 2^k, 2^k + 1 (and 0..9, 1000, 6000) and
+      the shifts 0, 1, 4, 13, 31 the returned mask is rol32(2^floor(log2(max(mean, 2))) - 1, shift).  A grid that
+      visits every bit position and the carry of every rotation, not every value.
 R09.3 no private tables: the scan loops (_rolling_hash2_run_until_{base,00,04}) read table entries only through
       their t1/t2 arguments, never from static storage.
 """
@@ -384,6 +388,50 @@ def run(chk):
             if not ok:
                 chk.finding(Finding("R09.8", src, F8.name, "hit-index", "on a path that leaves the scan %s the value stored to *idx is (index of the last byte hashed) %+d; the contract is %+d" % ("through the hit test" if kind == "hit" else "at the bound", so - lo, want), loc=stored[1].loc()))
     chk.floor("C scan-loop paths judged for the stored index", nir, 2)
+    # ---- R09.9 mask generator
+    import irskel
+    Mx = mods.get("rolling_hash/rolling_hashx_base.c")
+    Fg = Mx.functions.get("_rolling_hashx_mask_gen") if Mx else None
+    if Fg is None or Fg.decl:
+        chk.broke("_rolling_hashx_mask_gen not found in the IR")
+    else:
+        an9 = {a_.get("name"): n_ for n_, a_ in enumerate(Fg.args)}
+        means = sorted(set(list(range(0, 10)) + [1000, 6000] + [v for k in range(1, 32) for v in ((1 << k) - 1, 1 << k, (1 << k) + 1)]))
+        bad9 = None
+        n9 = 0
+
+        def enter9(cal):
+            G = Mx.functions.get(cal)
+            return G if G is not None and not G.decl else None
+        for mean in means:
+            for sh in (0, 1, 4, 13, 31):
+                args9 = [None] * len(Fg.args)
+                args9[an9.get("mean", 0)] = mean
+                args9[an9.get("shift", 1)] = sh
+                try:
+                    rr9 = irskel.run(Fg, args9, enter=enter9)
+                except irskel.Unknown as e:
+                    chk.broke("_rolling_hashx_mask_gen: IR skeleton not followed for mean = %d, shift = %d: %s" % (mean, sh, e))
+                    bad9 = bad9 or "broken"
+                    break
+                n9 += 1
+                mm = max(mean, 2)
+                e2 = 1 << (mm.bit_length() - 1)
+                x = (e2 - 1) & 0xFFFFFFFF
+                want = ((x << sh) | (x >> ((32 - sh) % 32))) & 0xFFFFFFFF if sh else x
+                got = rr9.ret
+                if not isinstance(got, int):
+                    chk.broke("_rolling_hashx_mask_gen: the value returned for mean = %d, shift = %d is not determined by the IR skeleton" % (mean, sh))
+                    bad9 = "broken"
+                    break
+                if got != want and bad9 is None:
+                    bad9 = (mean, sh, got, want)
+            if bad9 == "broken":
+                break
+        chk.obligation("R09.9", bad9 is None, key="mask_gen", sample={"function": Fg.name, "cases": n9})
+        chk.floor("(mean, shift) cases of the mask generator followed", n9, 400)
+        if bad9 and bad9 != "broken":
+            chk.finding(Finding("R09.9", "rolling_hash/rolling_hashx_base.c", Fg.name, "mask:mean=%d,shift=%d" % bad9[:2], "mask_gen(mean = %d, shift = %d) evaluates to %s; the contract rol32(floor_pow2(max(mean, 2)) - 1, shift) gives %#x - chunk boundaries found with this mask differ from every other version of the library" % (bad9[0], bad9[1], ("%#x" % bad9[2]) if isinstance(bad9[2], int) else "an undetermined value", bad9[3]), loc="%s:%s" % (Fg.file, Fg.line)))
     # ---- R09.6 unsigned bound
     nb6 = 0
     for src, M in sorted(mods.items()):
